@@ -107,6 +107,83 @@ End Supported.
 Definition c05_case_supported (c : ccase) : bool := supported (cc_facts c) (cc_val c).
 Definition c05_case_proved (c : ccase) : bool := false.
 
-(* placeholder guards for C04 (refined below) *)
-Definition c04_case_ok (c : ccase) : bool := false.
-Definition c04_case_model_faithful (c : ccase) : bool := true.
+(* ---------- the guard of C04: no member of a known silent-corruption class inside v ---------- *)
+Definition key_c04_ok (k : dkey) : bool :=
+  match k_val k with
+  | None => true                      (* json.dumps refuses the key: the dump raises *)
+  | Some sc =>
+      match coerce_key (k_mod k) (k_cls k) (key_text sc) with
+      | Ok sc' => scalar_eqb sc' sc
+      | Raise EDomain => false
+      | Raise _ => true               (* k_type(key) raises at load: a refusal *)
+      end
+  end.
+Definition some_key_texts (ks : list dkey) : list pstr :=
+  flat_map (fun k => match k_val k with Some sc => [key_text sc] | None => [] end) ks.
+Definition keys_c04_ok (ks : list dkey) : bool := forallb key_c04_ok ks && nodup_texts (some_key_texts ks).
+Definition seq_like (v : pval) : bool :=
+  match v with
+  | PSeq QList _ _ _ _ _ | PSeq QTuple _ _ _ _ _ | PArr _ _ _ _ _ | PObjArr _ _ _ _ _ | PMasked _ _ _ _ _ | PSparse _ _ _ _ => true
+  | _ => false
+  end.
+Definition builtin_seq (m c : pstr) : bool :=
+  is_q m c "builtins.list" || is_q m c "builtins.tuple" || is_q m c "builtins.set".
+
+Section C04ok.
+  Variable F : cfacts.
+  Fixpoint c04_ok (v : pval) {struct v} : bool :=
+    let fix all (l : list pval) {struct l} : bool :=
+      match l with [] => true | x :: l' => c04_ok x && all l' end in
+    let fix vals (l : list (dkey * pval)) {struct l} : bool :=
+      match l with [] => true | (_, x) :: l' => negb (is_prop x) && c04_ok x && vals l' end in
+    match v with
+    | PScalar _ sc => scalar_rt_ok sc
+    | PSub _ _ _ _ => false                                   (* class lost through json *)
+    | PBytes _ ba m c _ => if ba then is_q m c "builtins.bytearray" else is_q m c "builtins.bytes"
+    | PSeq q _ m c nt l =>
+        all l
+        && match q with
+           | QList => is_q m c "builtins.list" || negb (builtin_seq m c)
+           | QSet => is_q m c "builtins.set" || negb (builtin_seq m c)
+           | QTuple => (is_q m c "builtins.tuple" && negb nt) || (nt && mem (qual m c) (f_namedtuples F))
+           end
+    | PDict _ m c l => keys_c04_ok (map fst l) && vals l
+    | PDefDict _ m c f l => is_q m c "collections.defaultdict" && keys_c04_ok (map fst l) && vals l && c04_ok f
+    | PProp _ => true                                         (* the dump raises *)
+    | PSlice _ a b c =>
+        forallb (fun x => match x with BScalar (SFloat _) => false | _ => true end) [a; b; c]
+    | PArr _ gen m c _ => if is_q m c "numpy.ndarray" then negb gen else Bool.eqb gen (mem (qual m c) (f_generic F))
+    | PObjArr _ m c shape cells =>
+        is_q m c "numpy.ndarray" && all cells
+        && match shape with
+           | [] => false
+           | [d] => Z.eqb d (Z.of_nat (length cells))
+           | _ => forallb (fun d => (0 <? d)%Z) shape && Z.eqb (zprod shape) (Z.of_nat (length cells))
+                  && negb (existsb seq_like cells)
+           end
+    | PMasked _ m c d k => is_q m c "numpy.ma.MaskedArray" && c04_ok d && c04_ok k
+    | PDType _ _ | PSparse _ _ _ _ | PFunc _ _ _ | PType _ _ _ | PUnsup _ _ _ => true
+    | PRandState _ _ _ st => c04_ok st
+    | PRandGen _ _ _ bg ss => c04_ok bg && c04_ok ss
+    | PPartial _ m c f a k n => is_q m c "functools.partial" && c04_ok f && c04_ok a && c04_ok k && c04_ok n
+    | POpFunc _ _ a => c04_ok a
+    | PMethod _ _ _ x => c04_ok x
+    | PObj _ _ _ hk hidden ok x =>
+        match hidden with [] => true | _ => match hk with HKNone => true | _ => false end end
+        && match ok with OKRaise _ | OKNoState => true | _ => c04_ok x end
+    end.
+End C04ok.
+
+Definition c04_case_ok (c : ccase) : bool := c04_ok (cc_facts c) (cc_val c).
+(* loads(dumps(v)) raises somewhere or returns a value with the same abstraction *)
+Definition c04_case_model_faithful (reg : registry) (cur : Z) (c : ccase) : bool :=
+  match roundtrip reg cur (cc_facts c) (cc_denv c) (cc_base c) (cc_val c) with
+  | Ok v' => pstr_eqb (show_val v') (show_val (cc_val c))
+  | Raise _ => true
+  end.
+(* loads(dumps(v)) returns exactly v (labels included) *)
+Definition c05_case_exact (reg : registry) (cur : Z) (c : ccase) : bool :=
+  match roundtrip reg cur (cc_facts c) (cc_denv c) (cc_base c) (cc_val c) with
+  | Ok v' => pval_eqb v' (cc_val c)
+  | Raise _ => false
+  end.
